@@ -171,8 +171,7 @@ Terminate(r, werr, immediate) ==
                        !.rets = r.rets \cup {[RetRec(s, c, TermErr(s, werr, s.calls[c].api)) EXCEPT !.term = TRUE] : c \in DOMAIN s.calls}]
         ELSE [r EXCEPT !.s = [s1 EXCEPT !.alive = FALSE, !.werr = werr, !.endDue = RT,
                                        !.calls = [c \in DOMAIN s.calls |->
-                                                   [s.calls[c] EXCEPT !.term = TRUE,
-                                                                      !.dl = IF @ < RT THEN @ ELSE RT]]]]
+                                                   [s.calls[c] EXCEPT !.term = TRUE, !.dl = RT]]]]
 
 ---------------------------------------------------------------------------
 (* API calls                                                               *)
